@@ -110,6 +110,17 @@ def search(ctx):
         for m in ("#if 1\\na\\n#include \"h.h\"\\nb\\n#endif\\nc\\n", "#if 0\\na\\n#include \"h.h\"\\nb\\n#endif\\nc\\n",
                   "#include \"h.h\"\\nb\\n#endif\\nc\\n", "a\\n#include \"h.h\"\\nb\\n"):
             out.append("C11.raw\t\t%s\th.h=%s" % (m, h))
+    # one header visited twice (and three times), the macro its block tests defined in between, by the header itself,
+    # by the includer, or from the start; every shape of guard block
+    for hdr in ("#ifndef G\\n#define G\\nfirst\\n#else\\nsecond\\n#endif\\n", "#ifndef G\\nfirst\\n#else\\nsecond\\n#endif\\n",
+                "#ifndef G\\n#define G\\nfirst\\n#elif 1\\nsecond\\n#endif\\n", "#ifndef G\\n#define G\\nfirst\\n#endif\\n",
+                "#ifndef G\\n#define G\\nfirst\\n#else\\n#define B 2\\n#endif\\n", "#ifdef G\\nsecond\\n#else\\n#define G\\nfirst\\n#endif\\n",
+                "#if !defined(G)\\n#define G\\nfirst\\n#else\\nsecond\\n#endif\\n", "#pragma once\\n#ifndef G\\n#define G\\nfirst\\n#else\\nsecond\\n#endif\\n",
+                "pre\\n#ifndef G\\n#define G\\nfirst\\n#else\\nsecond\\n#endif\\n", "#ifndef G\\n#define G\\nfirst\\n#else\\nsecond\\n#endif\\npost\\n"):
+        for between in ("", "#define G\\n", "#undef G\\n", "#define G 1\\n#undef G\\n"):
+            out.append("C11.raw\t\t#include \"h.h\"\\n%s#include \"h.h\"\\nprobe G B\\n\th.h=%s" % (between, hdr))
+        out.append("C11.raw\tG=1\t#include \"h.h\"\\n#include \"h.h\"\\n#include \"h.h\"\\nprobe G B\\n\th.h=%s" % hdr)
+        out.append("C11.raw\t\t#include \"w.h\"\\n#include \"h.h\"\\n#include \"w.h\"\\nprobe G B\\n\th.h=%s\tw.h=#include \"h.h\"\\n" % hdr)
     for hostile in ("$", "#3", "#while", "#else junk", "#include <a", "#pragma bogus", "#define", "#include \"missing.h\""):
         out.append("C11.raw\t\t#if 0\\n%s\\n#endif\\nx\\n" % hostile)
         out.append("C11.raw\t\t#if 0\\n#if 1\\n%s\\n#endif\\n#endif\\nx\\n" % hostile)
@@ -272,6 +283,7 @@ SPEC = {
         "included_file_is_balanced", "includers_blocks_untouched", "include_cannot_touch_includers_chain",
         "if_closed_by_includers_endif_rejected", "else_of_other_file_rejected",
         "nonname_directive_ignored_when_skipped",
+        "include_arm_shape_agree", "include_is_processed_each_time", "guard_else_group_delivered_on_reinclude",
         "defined_is_protected", "cond_eval_composed", "composed_shape_agree"]],
     "harness": "c11",
     "nontrivial": nontrivial,
